@@ -192,3 +192,25 @@ Definition device_signature_payload (alg_protected de erk : bytes) (ho : cbor) (
 Theorem device_payload_is_iso prot de erk ho dt ns :
   device_signature_payload prot de erk ho dt ns = POk (iso_device_tbs prot de erk ho dt ns).
 Proof. reflexivity. Qed.
+
+(* ---------- which document is reported ---------- *)
+
+Lemma reported_is_authenticated docs : reported_document docs = authenticated_document docs.
+Proof. reflexivity. Qed.
+
+Lemma select_document_first docs d :
+  select_document docs = Some d ->
+  In d docs /\ rd_doc_type d = mdl_doc_type /\
+  exists pre post, docs = pre ++ d :: post /\ Forall (fun x => rd_doc_type x <> mdl_doc_type) pre.
+Proof.
+  unfold select_document. induction docs as [|x r IH]; cbn [find]; [discriminate|].
+  destruct (bytes_eqb (rd_doc_type x) mdl_doc_type) eqn:E.
+  - intros H. inversion H; subst x. apply bytes_eqb_eq in E. split; [left; reflexivity|]. split; [exact E|].
+    exists [], r. split; [reflexivity|constructor].
+  - intros H. destruct (IH H) as [Hin [Hdt [pre [post [Heq Hall]]]]].
+    split; [right; exact Hin|]. split; [exact Hdt|].
+    exists (x :: pre), post. split; [rewrite Heq; reflexivity|].
+    constructor; [|exact Hall]. intro Hx. rewrite Hx in E.
+    assert (Hr : bytes_eqb mdl_doc_type mdl_doc_type = true) by (apply bytes_eqb_eq; reflexivity).
+    rewrite Hr in E. discriminate.
+Qed.
